@@ -416,7 +416,7 @@ pub fn run(ctx: &Ctx, rep: &Report) -> Meta {
     run_cases(ctx, rep, "generated", ctx.tier.pick(200, 1500), 40, || strat(le), |c| check_one(rep, "generated", c, &params));
     Meta {
         rule: "modulus and bases from commitment keys over issuer moduli, issuer (a_0, b) pairs and a commitment key over its own modulus; intervals [a, b] with a in {0, 1, 2^257+1, random} and b - a in {1, 2, 3, 2^k (k = 1..256), 2^256-1, random, 2^k-1, 2^k+1, s^2-1, s^2, s^2+1}; width-sweep: honest proofs at both ends of intervals of width 2^k-1, 2^k+1, s^2-1, s^2 and the squares of 2^ceil(k/2)-1 and 2^ceil(k/2) minus one for EVERY k in 2..=130 (quick) / 300 (thorough); \
-               x in {a, a+1, mid, b-1, b, random}; commitment randomness of about |n| bits (half of the cases), tiny, negative, a fraction k/16 of 2^40*n of either sign, +-(2^40*n - 1); positive: verify(prove(x)) true and the proof survives JSON; negative: (i) the honest prover on a-1, b+1, a-2^k, b+2^k, b+width yields no accepted proof (a panic counts as no proof), \
+               x in {a, a+1, mid, b-1, b, random}; commitment randomness of about |n| bits (half of the cases), tiny, negative, a fraction k/16 of 2^40*n of either sign, +-(2^40*n - 1); in a third of the cases a call the CL03 code refuses (ten kinds on CL1024 objects of their own: changed attribute, fewer bases than attributes, other / out-of-range hidden positions, a commitment key without a base or with h = 0, a range proof under other bounds or h = 0, a value outside the interval, blind_sign for another commitment) right before proving, in another third right before verifying; positive: verify(prove(x)) true and the proof survives JSON; negative: (i) the honest prover on a-1, b+1, a-2^k, b+2^k, b+width yields no accepted proof (a panic counts as no proof), \
                (ii) other bounds / exchanged or squared bases / other modulus, (iii) integer leaves perturbed by +1, -1, := 0, := sibling, one high bit flipped, +2^k for k in {128, 160, 256, 300} (sampled in quick, all leaves in thorough), \
                (iv) transplant of the sub-proofs onto commitments to b+1, a far value, a random group element, the same value with other randomness, with and without overwriting the square proofs' E; \
                (v) degenerate square proofs: F := 0 or n with challenge := H(\"00\") or H(g^d h^d1 || \"0\") (what a verifier that maps a missing inverse to 0 or 1 recomputes; no secret needed); self-check: the harness' public recomputation reproduces the honest proof; non-trivial = outside the (interval, mid-range x) settings the crate uses itself; evaluations = verifier decisions"
